@@ -1,7 +1,7 @@
 import Tmv.Lemmas.LightRpc
 import Tmv.Lemmas.ProtoEnc
 import Tmv.Lemmas.MerkleComplete
-import Tmv.Props.C10
+import Tmv.Lemmas.MerkleInclusion
 /-! Auxiliary definitions and lemmas for Props/C20 (kept out of the property file): the honest
 application state used to state the ABCIQuery theorems, loop lemmas, and the concrete one-block
 chain `Wit` used for witnesses and non-vacuity examples. -/
@@ -46,8 +46,80 @@ theorem verify_inclusion_any (L : Nat) (hL : 0 < L) (hlen : ∀ x, (H x).length 
     have hlh : p.leafHash = leafHash H leaf := by simpa using hleaf
     rw [hlh] at hcomp
     exact fromAunts_ne_emptyHash H leaf _ _ _ _ hcomp
-  · exact C10.verify_inclusion H L hL hlen items hne leaf p hv
+  · unfold verify at hv
+    split at hv; · cases hv
+    split at hv; · cases hv
+    split at hv; · cases hv
+    rename_i hleaf
+    have hrootlen : (root H items).length = L := rootF_len H L hlen _ _
+    have hrne : root H items ≠ [] := by
+      intro h; rw [h] at hrootlen; simp at hrootlen; omega
+    have hcomp : computeRoot H p = some (root H items) := by
+      split at hv
+      · simp [hrne] at hv
+      · rename_i h heq; split at hv
+        · rename_i e; rw [heq, e]
+        · cases hv
+    unfold computeRoot at hcomp
+    split at hcomp; · cases hcomp
+    have hlh : p.leafHash = leafHash H leaf := by simpa using hleaf
+    rw [hlh] at hcomp
+    exact fromAunts_inclusion H L hlen items.length items (Nat.le_refl _) hne _ _ _ leaf _ hcomp
 
+
+/-- a height inside the requested range (`0` = bound not given) -/
+def InRange (mn mx h : Int) : Prop := ¬ ((mn > 0 ∧ h < mn) ∨ (mx > 0 ∧ h > mx))
+
+theorem checkMetas_none (mn mx : Int) :
+    ∀ (metas : List (Option BlockMeta)), checkMetas H mn mx metas = none →
+      ∀ x ∈ metas, ∃ m, x = some m ∧ m.validateBasic H = true ∧ InRange mn mx m.header.height := by
+  intro metas
+  induction metas with
+  | nil => intro _ x hx; cases hx
+  | cons y ys ih =>
+    intro h x hx
+    cases y with
+    | none => simp [checkMetas] at h
+    | some m =>
+      simp only [checkMetas] at h
+      split at h; · cases h
+      rename_i hv
+      split at h; · cases h
+      rename_i hr
+      simp only [List.mem_cons] at hx
+      rcases hx with rfl | hx
+      · exact ⟨m, rfl, by simpa using hv, hr⟩
+      · exact ih h x hx
+
+theorem checkMetas_ne_ok (mn mx : Int) :
+    ∀ (metas : List (Option BlockMeta)), checkMetas H mn mx metas ≠ some .ok := by
+  intro metas
+  induction metas with
+  | nil => simp [checkMetas]
+  | cons y ys ih =>
+    cases y with
+    | none => simp [checkMetas]
+    | some m =>
+      simp only [checkMetas]
+      split; · simp
+      split; · simp
+      exact ih
+
+theorem checkMetas_complete (mn mx : Int) :
+    ∀ (metas : List (Option BlockMeta)),
+      (∀ x ∈ metas, ∃ m, x = some m ∧ m.validateBasic H = true ∧ InRange mn mx m.header.height) →
+      checkMetas H mn mx metas = none := by
+  intro metas
+  induction metas with
+  | nil => intro _; rfl
+  | cons y ys ih =>
+    intro h
+    obtain ⟨m, e, hv, hr⟩ := h y (by simp)
+    subst e
+    simp only [checkMetas, hv, Bool.not_true, Bool.false_eq_true, if_false]
+    unfold InRange at hr
+    simp only [hr, if_false]
+    exact ih (fun x hx => h x (by simp [hx]))
 
 theorem verifyMetas_sound :
     ∀ (metas : List (Option BlockMeta)) (lc lc' : LC), verifyMetas H lc metas = (.ok, lc') →
@@ -256,6 +328,27 @@ theorem foldl_max_ge_mem (l : List Int) (a x : Int) (hx : x ∈ l) :
       · have := foldl_max_ge ys a; omega
     · exact ih _ hx
 
+
+/-- `Txs.Proof(i)` validates against `Txs.Hash()` (the completeness half of C10, re-derived here from
+the aunts lemma so that this file does not depend on Props/C10) -/
+theorem proofFor_validates (txs : List Bytes) (i : Nat) (hi : i < txs.length) :
+    validate H (txsHash H txs) (proofFor H txs i) = .ok () := by
+  have hi' : i < (txs.map H).length := by simpa using hi
+  have hc := computeRoot_proofOf H (txs.map H) i hi'
+  unfold validate proofFor txsHash
+  have h1 : ¬ ((proofOf H (txs.map H) i).index < 0) := by simp [proofOf]
+  have h2 : ¬ ((proofOf H (txs.map H) i).total ≤ 0) := by
+    simp only [proofOf, List.length_map]; omega
+  simp only [ne_eq, not_true_eq_false, if_false, h1, h2]
+  have hd : txs.getD i [] = txs[i] := by simp [List.getD_eq_getElem?_getD, hi]
+  have hv : verify H (root H (txs.map H)) (H (txs.getD i [])) (proofOf H (txs.map H) i) = .ok () := by
+    unfold verify
+    have t1 : ¬ ((proofOf H (txs.map H) i).total < 0) := by simp [proofOf]
+    have hl : (proofOf H (txs.map H) i).leafHash = leafHash H (H (txs.getD i [])) := by
+      simp [proofOf, List.getD_eq_getElem?_getD, hi]
+    simp only [t1, h1, if_false, hl, ne_eq, not_true_eq_false, hc]
+    simp
+  rw [hv]
 
 /-! ### a concrete one-block chain -/
 namespace Wit
